@@ -8,6 +8,7 @@ import (
 	"fmt"
 	"os"
 	"strings"
+	"time"
 )
 
 func cloneDoc(d *Doc) *Doc {
@@ -168,6 +169,11 @@ func sameFailure(a, b Outcome) bool {
 // failing document: a panic in here is recovered and the best document found so
 // far (at worst d itself) is returned.
 func Shrink(d *Doc, want Outcome, run func(*Doc) Outcome, maxCalls int) (cur *Doc, calls int) {
+	return ShrinkUntil(d, want, run, maxCalls, time.Time{})
+}
+
+// ShrinkUntil is Shrink with a wall-clock deadline (zero: none)
+func ShrinkUntil(d *Doc, want Outcome, run func(*Doc) Outcome, maxCalls int, deadline time.Time) (cur *Doc, calls int) {
 	cur = d
 	defer func() {
 		if r := recover(); r != nil {
@@ -178,6 +184,9 @@ func Shrink(d *Doc, want Outcome, run func(*Doc) Outcome, maxCalls int) (cur *Do
 		progress := false
 		k := 0
 		for calls < maxCalls {
+			if !deadline.IsZero() && time.Now().After(deadline) {
+				return cur, calls
+			}
 			c := applyEdit(cur, k)
 			if c == nil {
 				break
